@@ -913,7 +913,54 @@ fn small_programs() -> Vec<(u16, Vec<u16>, bool, &'static str)> {
         // the first instruction stores outside user space and changes no register and no flag
         (0x3000, vec![0x7E00, 0x1021, 0xF025], false, "store-low-first"),
         (0x3000, vec![0x3E01, 0xF025, 0xF025], false, "store-self-first"),
+        // images that straddle the end of user space (0xFE00): statements, labels and `.break`
+        // directives beyond it exist but are not valid locations
+        (0xFDFE, vec![0x1021, 0x1021, 0x1021, 0xF025, 0xF025], false, "straddle-top"),
+        (0xFDFF, vec![0x1021, 0xF025, 0x1021, 0xF025], false, "straddle-top-1"),
     ]
+}
+
+/// Sessions on the straddling programs with a `.break` on every statement (so that predefined
+/// breakpoints exist at and beyond 0xFE00) probing add / remove / goto / move / list there.
+fn straddle_sessions(tag: &'static str) -> Vec<(DbgCase, &'static str)> {
+    let mut out = Vec::new();
+    let mut rng = Rng::new(0x57AD);
+    for (orig, words, stack, kind) in small_programs() {
+        if !kind.starts_with("straddle") {
+            continue;
+        }
+        let n = words.len();
+        for a in 0..=(n as u16 + 1) {
+            let addr = orig.wrapping_add(a);
+            for variant in 0..4 {
+                let p = Prog { orig, words: words.clone(), inp: vec![], stack, minimal: true, kind };
+                let mut c = decorate(&mut rng, &p, tag, vec![], 30_000);
+                c.breaks = (0..=n).collect();
+                c.labels = vec![("zq0".into(), n - 1), ("zq1".into(), 0)];
+                let l = match variant {
+                    3 => Loc::Label("zq1".into(), a as i32),
+                    _ => Loc::Addr(addr),
+                };
+                let mut cmds = vec![Cmd::BreakList];
+                cmds.push(match variant {
+                    0 => Cmd::BreakRemove(l),
+                    1 => Cmd::BreakAdd(l),
+                    2 => Cmd::Goto(l),
+                    _ => Cmd::BreakRemove(l),
+                });
+                cmds.push(Cmd::BreakList);
+                cmds.push(Cmd::Continue);
+                cmds.push(Cmd::Continue);
+                cmds.push(Cmd::BreakRemove(Loc::Pc(0)));
+                cmds.push(Cmd::BreakList);
+                cmds.push(Cmd::Registers);
+                cmds.push(Cmd::Exit);
+                c.cmds = cmds;
+                out.push((c, kind));
+            }
+        }
+    }
+    out
 }
 
 
@@ -1137,6 +1184,15 @@ pub fn run_prop(o: &crate::Opts, tag: &'static str) {
     let mut samples = Vec::new();
     if o.shard == 0 && tag != "D13" {
         for (c, kind) in directed(tag) {
+            let obs = run_debug(&mut cap, &c);
+            let v = if obs.line == "panic" { "-".to_string() } else { verdict(&mut cap, tag, &c, &obs) };
+            *kinds.entry(format!("directed-{}:{}", kind, obs.line.split(' ').next().unwrap_or(""))).or_default() += 1;
+            *verdicts.entry(v.clone()).or_default() += 1;
+            sink.put(&c.request(), &format!("{} | {}", obs.line, v));
+        }
+    }
+    if o.shard == 1 % o.nshards && (tag == "D13" || tag == "D11") {
+        for (c, kind) in straddle_sessions(tag) {
             let obs = run_debug(&mut cap, &c);
             let v = if obs.line == "panic" { "-".to_string() } else { verdict(&mut cap, tag, &c, &obs) };
             *kinds.entry(format!("directed-{}:{}", kind, obs.line.split(' ').next().unwrap_or(""))).or_default() += 1;
